@@ -5,6 +5,8 @@ from decimal import Decimal
 import athlib
 from athlib import HighJumpCompetition, RuleViolation
 
+from . import lib as _lib
+
 
 ADD_VARIANTS = {
     'DNS': {'order': 'DNS'}, 'DQ': {'order': 'DQ'}, 'order': {'order': 7}, 'none': {'order': None},
@@ -28,6 +30,13 @@ def apply(c, call, float_heights=False):
     """Apply call to competition c.  Returns ('ok',) or ('refused', exception type name, message).  With
     float_heights the bar height (an exact Decimal in the harness) is handed over as the nearest float."""
     op, arg = call
+    if _lib.AMBIENT:
+        with _lib.ambient('%s%r' % (op, arg)):
+            return _apply(c, op, arg, float_heights)
+    return _apply(c, op, arg, float_heights)
+
+
+def _apply(c, op, arg, float_heights):
     try:
         if op == 'add':
             c.add_jumper(bib=arg)
